@@ -110,10 +110,10 @@ def run(ctx):
                                                                                    "are not attached to it", s.loc)
     al = prog.fn(RC + "::attach_latest_fdt_to_objects")
     ctx.analysed(al.path)
-    at = call_sites(al, lambda p, c: p == OR + "::attach_fdt")
-    nx = [s for s in call_sites(al, lambda p, c: p.endswith("::next")) if "hash" in (s.term.callee().get("substs") or [""])[0].lower() or "IterMut" in (s.term.callee().get("substs") or [""])[0]]
-    if at and nx:
-        r2.ok("attach_latest_fdt_to_objects iterates self.objects", "", at[0].loc)
+    # every waiting object is offered the new instance: explicit loop or iterator adaptor over self.objects, attach_fdt on every element
+    fe = foreach_sites(prog, al, r"^self\.objects\b", lambda p: p == OR + "::attach_fdt")
+    if fe:
+        r2.ok("attach_latest_fdt_to_objects iterates self.objects", fe[0][1], fe[0][2].loc)
     else:
         r2.violation("attach_latest_fdt_to_objects iterates self.objects", "waiting objects are not all offered the new instance", loc(al.sp))
     co = prog.fn(RC + "::create_obj")
